@@ -745,6 +745,16 @@ class SymInt:
     def __deepcopy__(self, memo):
         return self
 
+    def bit_length(self):
+        """int.bit_length: case split on the magnitude (one path per length)."""
+        mag = abs(self)
+        n = 0
+        while bool(mag >= (1 << n)):
+            n += 1
+            if n > 4096:
+                raise Unsupported("bit_length of an unbounded integer")
+        return n
+
 
 def const_value(x):
     """Python int if x is concrete or simplifies to a numeral, else None."""
